@@ -34,11 +34,16 @@ func unwrap(e parser.Expr) parser.Expr {
 }
 
 func init() {
-	// KF-timestamp: timestamp() never sees sample timestamps (step vectors do not carry them).
-	Register("call-timestamp", func(c *core.Case, expr parser.Expr) bool {
+	// KF-timestamp-at-offset: timestamp() directly over a selector that carries both an
+	// @ modifier and an offset (the pinned Prometheus drops the offset there).
+	Register("timestamp-of-at-offset-selector", func(c *core.Case, expr parser.Expr) bool {
 		return anyNode(expr, func(n parser.Node, _ []parser.Node) bool {
 			call, ok := n.(*parser.Call)
-			return ok && call.Func.Name == "timestamp"
+			if !ok || call.Func.Name != "timestamp" || len(call.Args) != 1 {
+				return false
+			}
+			vs, ok := unwrap(call.Args[0]).(*parser.VectorSelector)
+			return ok && (vs.Timestamp != nil || vs.StartOrEnd != 0) && vs.OriginalOffset != 0
 		})
 	})
 	// KF-include: group_left/group_right with a non-empty include list takes the
